@@ -46,13 +46,17 @@ from pbt.ref import c06_midiinterp as R
 PROPERTY = "C06"
 ENGINES = ["hypothesis"]
 ASSUMPTIONS = [
-    "round trip: tracks of the saved performance are 0..k-1 and each holds at least one note (tracks without notes, controls or programs are not turned into performed parts by the loader; renumbering of sparse track numbers is not judged)",
+    "round trip: every track of the saved performance holds a note, a control or a program (a track with meta events only is not turned into a performed part by the loader); track numbers may have gaps: the tracks are written in increasing order of their numbers and come back numbered 0..k-1 in that order",
+    "absent keys: a note without velocity / channel / track and a control without channel / track count with the documented defaults velocity 60, channel 1, track 0",
+    "parts built with PerformedPart.from_note_array carry single-precision times: the original time is the float32 value, rounded to the nearest tick like any other time",
+    "load_performance(first_note_at_zero=True): judged for the first performed part when it has a note (notes, programs and controls at or after the first onset shifted by it, one control per stream allowed at time 0 carrying the value in force, signatures and other meta events not moved); seconds of later parts, control streams with two events on one tick and first parts without notes are not judged",
+    "a loaded performance saved again with the ppq / mpq of the file must give a file with the same notes, controls, signatures and meta events per track (programs: a part without programs gains program 0 per used channel)",
     "notes of one (track, channel, pitch) - of one (channel, pitch) when tracks are merged on either side - never overlap in ticks whatever way a .5 tie is rounded; touching is allowed",
     "a tick value within 1e-9*(1+x) of k+.5 accepts k and k+1",
     "loaded seconds are compared with relative tolerance 1e-9",
     "events of equal time are compared as multisets per track; the end_of_track message mido appends is ignored",
     "default program 0 messages for parts without programs: (track, channel, program) checked, time not checked",
-    "midifile: no two set_tempo at the same tick; no dangling note-on, no off without on (outside the stated domain); default_bpm values divide 6*10^7",
+    "midifile: no set_tempo events of different tracks at the same tick (several on one tick of one track are ordered: the last is in force); no dangling note-on, no off without on (outside the stated domain); default_bpm values divide 6*10^7",
     "midifile: loaded track numbers must be unique per file track and increase with the file's track order (both compaction and the file index are accepted); round trip: equal to the saved track number",
 ]
 
@@ -207,6 +211,7 @@ def compare_shifted_controls(o, tr, pp, file_seconds, shift):
             continue
         kept = [(file_seconds(t) - shift, v) for t, v in exp if file_seconds(t) >= shift]
         before = [v for t, v in exp if file_seconds(t) < shift]
+        o.cls("first-note-at-zero:control-before-first-onset", bool(before))
         got = sorted(groups_g[key])
         rest = list(got)
         missing = []
@@ -485,6 +490,7 @@ def _oracle_roundtrip(spec, o):
         x_controls.append([dict(track=trk(a, b), channel=a.get("channel", DEF_CHANNEL), number=a["number"], value=a["value"], time=a["time"]) for a, b in zip(q["controls"], pp.controls)])
         x_programs.append([dict(track=trk(a, b), channel=a["channel"], program=a["program"], time=a["time"]) for a, b in zip(q["programs"], pp.programs)])
     o.cls("note-without-optional-keys", any(len(n) < 6 for q in spec["parts"] for n in q["notes"]))
+    o.cls("note-array-without-channel-or-track-field", build == "note_array" and any(q.get("na_omit") for q in spec["parts"]))
     o.cls("control-without-track-and-channel-keys", any("track" not in c for q in spec["parts"] for c in q["controls"]))
 
     tracks = sorted(set(e["track"] for lst in (x_notes, x_controls, x_programs) for part in lst for e in part))
@@ -514,16 +520,25 @@ def _oracle_roundtrip(spec, o):
     near = tie = False
     e_notes = []
     idx = 0
+    sp_differs = False  # a single-precision product would round to another tick than the exact value
     for xn in x_notes:
         for n in xn:
-            a = tick_range(n["note_on"], ppq, mpq, n["f32"])
-            b = tick_range(n["note_off"], ppq, mpq, n["f32"])
+            # the original time of a note-array part is its float32 value; like every other time it has to be
+            # rounded to the nearest tick (seconds_to_midi_ticks was repaired for exactly this input: a80a713)
+            a = tick_range(n["note_on"], ppq, mpq)
+            b = tick_range(n["note_off"], ppq, mpq)
+            if n["f32"]:
+                for t_, r_ in ((n["note_on"], a), (n["note_off"], b)):
+                    with np.errstate(all="ignore"):
+                        k32 = float(np.round(np.float32(MILLION * ppq) * np.float32(t_) / np.float32(mpq)))
+                    sp_differs = sp_differs or not (r_[0] <= k32 <= r_[1])
             near = near or a[2] or b[2]
             tie = tie or a[3] or b[3]
             e_notes.append(dict(track=n["track"], channel=n["channel"], pitch=n["pitch"], velocity=n["velocity"], on=a[:2], off=b[:2], idx=idx))
             idx += 1
     o.cls("near-half-tick", near)
     o.cls("exact-half-tick-tie", tie)
+    o.cls("single-precision-product-rounds-to-another-tick", sp_differs)
     # domain: no overlap within a key, whatever way ties are rounded
     keys = {}
     for n in e_notes:
@@ -568,6 +583,9 @@ def _oracle_roundtrip(spec, o):
             as_pathlib = spec.get("path_type", "str") == "pathlib"
             o.cls("path-given-as-pathlib", as_pathlib)
             ret = call(save_performance_midi, data, pathlib.Path(path) if as_pathlib else path, **kw)
+            if not os.path.exists(path):
+                o.add("export:no-file-written", path_type=spec.get("path_type", "str"))
+                return o
             raw = open(path, "rb").read()
         elif spec["io"] == "fileobj":
             buf = io.BytesIO()
@@ -619,7 +637,8 @@ def _oracle_roundtrip(spec, o):
                     )
                 )
         if bad or problems:
-            o.add("export:notes-differ", differences=bad[:3], file_problems=problems[:4], touching_notes_later_listed_first=reversed_, order=spec["order"])
+            o.add("export:notes-differ", differences=bad[:3], file_problems=problems[:4], touching_notes_later_listed_first=reversed_, order=spec["order"],
+                  single_precision_product_rounds_to_another_tick=sp_differs)
 
         exp_c, exp_p, exp_k, exp_t, exp_m = [], [], [], [], []
         extras = Counter()
@@ -854,6 +873,27 @@ def known_empty_part(spec, d):
     )
 
 
+def known_controls_without_track(spec, d):
+    """Performance(...) numbers a control without a "track" key as track -1, so the controls and the notes of
+    ONE part (notes default to track 0) are put on two different tracks."""
+    return (
+        d.kind == "performance:track-numbers-not-made-unique"
+        and spec.get("kind") == "performance"
+        and d["detail"].get("control_without_track_key") is True
+        and any("track" not in c for q in spec.get("parts", []) for c in q["controls"])
+    )
+
+
+def known_float32_times(spec, d):
+    """save_performance_midi computes 10**6 * ppq * t / mpq in single precision when t is a numpy float32 (the times
+    of PerformedPart.from_note_array): the note is written one tick off whenever that product rounds differently."""
+    return (
+        spec.get("build") == "note_array"
+        and d.kind == "export:notes-differ"
+        and d["detail"].get("single_precision_product_rounds_to_another_tick") is True
+    )
+
+
 def _spec_notes_controls(spec):
     """(pitch, track, channel) of every note and the control numbers, for either kind of spec."""
     notes, controls = [], []
@@ -896,13 +936,15 @@ SUBCHECKS = [
         oracle_roundtrip,
         strategy=G.perf_specs,
         budget={"quick": 200, "thorough": 6000},
-        rule="generated performances (Performance / PerformedPart / list; 1-4 tracks, 1-3 parts; tick-domain times with fractional classes and free floats; controls, programs, signatures, meta) x (ppq, mpq) x merge on save x merge on load x API; non-trivial = at least 2 tracks or a time within 0.1 tick of a .5 rounding boundary",
+        rule="generated performances (Performance with and without ensure_unique_tracks, from a list or a single part / PerformedPart / list, tuple or generator of parts; parts built from dicts, PerformedNote objects or a note array; 1-4 tracks with dense or sparse numbers, tracks with controls only, 1-3 parts; optional keys present or absent; tick-domain times with fractional classes and free floats; controls, programs, signatures, meta) x (ppq, mpq) x merge on save x merge on load x API (str / pathlib paths, file objects, MidiFile objects; load_performance with first_note_at_zero and pedal_threshold) x saving the loaded performance again; non-trivial = at least 2 tracks or a time within 0.1 tick of a .5 rounding boundary",
         known={
             "list-input-unboundlocal": known_list_input,
             "loaded-tracks-renumbered-in-set-order": known_track_set_order,
             "touching-notes-unsorted-list": known_touching_unsorted,
             "empty-part-indexerror": known_empty_part,
             "pedal-same-pitch-other-channel-valueerror": known_pedal_same_pitch,
+            "controls-without-track-split-from-notes": known_controls_without_track,
+            "export-float32-times-rounded-in-single-precision": known_float32_times,
         },
         floors={
             "kind:list": 0.08,
@@ -914,6 +956,14 @@ SUBCHECKS = [
             "near-half-tick": 0.2,
             "touching-notes": 0.1,
             "non-default-ppq-mpq": 0.3,
+            # generator audit
+            "track-numbers-with-gaps": 0.05,
+            "track-without-notes": 0.05,
+            "note-without-optional-keys": 0.05,
+            "control-without-track-and-channel-keys": 0.04,
+            "build:note_array": 0.08,
+            "first-note-at-zero": 0.04,
+            "loaded-performance-saved-again": 0.15,
         },
     ),
     SubCheck(
@@ -933,6 +983,7 @@ SUBCHECKS = [
             "tempo-in-several-tracks": 0.05,
             "merge-on-load": 0.15,
             "zero-velocity-note-on-as-off": 0.3,
+            "two-tempo-events-on-one-tick-of-one-track": 0.05,
         },
     ),
 ]
